@@ -143,6 +143,9 @@ def build_methods(specs: List[Dict[str, Any]], shared: Dict[str, Any]):
             fn = ns[m['fname']]
             view_cls = None
         funcs[m['name']] = fn
+        if m.get('pep702'):
+            # what @warnings.deprecated / @typing_extensions.deprecated leave on the function: the MESSAGE, not a flag
+            getattr(fn, '__func__', fn).__deprecated__ = 'use something else instead'
         ann = m.get('annotate')
         if ann:
             apply_annotations(fn, ann, shared, m)
